@@ -137,8 +137,24 @@ def _run_cvc5(text, timeout_s):
     return out, time.time() - t0
 
 
+CROSS_S = [0]       # thorough tier: every obligation z3 discharges is also given to cvc5 (independent second opinion)
+
+
 def _work(job):
     """portfolio: the light axiom set first (dropping axioms is sound), then the full set, then cvc5"""
+    idx, text_lite, text, z3_ms, cvc5_s = job
+    r = _work0(job)
+    if CROSS_S[0] and r[1] == "unsat" and r[3] == "z3":
+        v2, dt2 = _run_cvc5(text, CROSS_S[0])
+        if v2 == "unsat":
+            return r[0], r[1], r[2] + dt2, "z3+cvc5"
+        if v2 == "sat":
+            return r[0], "solver-disagreement(z3 unsat, cvc5 sat)", r[2] + dt2, "z3"
+        return r[0], r[1], r[2] + dt2, "z3"
+    return r
+
+
+def _work0(job):
     idx, text_lite, text, z3_ms, cvc5_s = job
     verdict, dt = _run_z3(text_lite, max(2000, z3_ms // 3))
     backend = "z3"
